@@ -78,8 +78,13 @@ WRAPPERS = ["pre:exp", "pre:tanh"]
 U_RED = ["ptw:exp", "ptw:sqrt", "ptw:tanh", "neg", "smul:c", "fmul", "mat", "conj", "real", "sum", "vdotc",
          "dl:u", "get:u", "einsum", "gauss_d", "poisson", "esmul", "ham"]
 B_RED = ["add", "mul", "vdot", "pair", "eadd"]
-U_TINY = ["ptw:exp", "ptw:reciprocal", "conj", "mat", "sum", "gauss_d", "ham"]
-B_TINY = ["mul", "vdot", "eadd", "add"]
+U_CTX = ["ptw:exp", "smul:c", "mat", "conj", "sum", "dl:u", "gauss_d"]     # contexts of the quick mixed block
+B_CTX = ["add", "mul", "vdot", "pair"]
+U_TINY = ["ptw:exp", "conj", "sum"]
+B_TINY = ["mul", "vdot"]
+U_TINY_T = ["ptw:exp", "ptw:reciprocal", "conj", "mat", "sum", "gauss_d", "ham"]
+B_TINY_T = ["mul", "vdot", "eadd", "add"]
+E_SUM = ["gauss_d", "gauss_icov", "poisson", "studentt"]
 
 
 def _full_unary():
@@ -87,61 +92,85 @@ def _full_unary():
     return ["ptw:" + f for f in X.PTW_ALL] + U_ARITH + U_LIN + U_MULTI + U_ENERGY
 
 
-def space(tier):
-    """List of (cfg, tree) with every tree exactly once; plus a description of the blocks."""
+def _mixed_size2():
+    """ALL size-2 trees with one node from the FULL alphabet and the other from the CONTEXT alphabet, over
+    keys a,b, modulo renaming a<->b of the inner size-1 tree (inner trees start with leaf a)."""
     from vf.ref import c03_expr as X
     full = _full_unary()
-    blocks = []          # (label, cfg, {size:[trees]})
-
-    def add(label, cfg, leaves, un, bi, n, wr=(), depth=None):
-        by = X.enumerate_trees(leaves, un, bi, n, max_depth=depth, wrappers=wr)
-        blocks.append((label, cfg, by))
-
-    if tier == "quick":
-        add("full<=1", "ab", ["a", "b", "La"], full, BINARY, 1, WRAPPERS)
-        add("full<=1", "x", ["x", "Lx"], full, BINARY, 1, WRAPPERS)
-        blocks.append(("full x reduced =2 (one node from each alphabet)", "ab", _mixed_size2(["a", "b"])))
-        add("reduced<=2", "x", ["x"], U_RED, B_RED, 2, ["pre:exp"])
-        add("tiny<=3", "ab", ["a", "b"], U_TINY, B_TINY, 3)
-    else:
-        add("full<=2", "ab", ["a", "b", "La"], full, BINARY, 2, WRAPPERS)
-        add("full<=2", "x", ["x", "Lx"], full, BINARY, 2, WRAPPERS)
-        add("reduced<=3", "ab", ["a", "b"], U_RED, B_RED, 3, ["pre:exp"])
-        add("tiny<=4,depth<=3", "ab", ["a", "b"], U_TINY, B_TINY, 4, depth=3)
-    return blocks
-
-
-def _mixed_size2(leaves):
-    """size-2 trees where one node comes from the FULL alphabet and the other from the REDUCED one."""
-    from vf.ref import c03_expr as X
-    full = _full_unary()
-    A = X.enumerate_trees(leaves, full, BINARY, 1, wrappers=WRAPPERS)
-    R = X.enumerate_trees(leaves, U_RED, B_RED, 1)
+    A = [t for t in X.enumerate_trees(["a", "b"], full, BINARY, 1, wrappers=WRAPPERS)[1] if t[1] == "a"]
+    R = [t for t in X.enumerate_trees(["a", "b"], U_CTX, B_CTX, 1)[1] if t[1] == "a"]
     out = []
-    ty = X.tree_type
 
-    def grow(inner, un, bi, leafs):
+    def grow(inner, un, bi, wr):
         for t in inner:
-            t1 = ty(t)
+            t1 = X.tree_type(t)
             for u in un:
                 if X.NODES[u].typ(t1) is not None:
                     out.append([u, t])
-            for l in leafs:
+            for w in wr:
+                if t1 != "SS":
+                    out.append([w, t])
+            for l in ("a", "b"):
                 for b in bi:
                     if X.NODES[b].typ(t1, "S") is not None:
                         out.append([b, t, l])
                     if X.NODES[b].typ("S", t1) is not None:
                         out.append([b, l, t])
-    grow(A[1], U_RED, B_RED, leaves)
-    grow(R[1], full, BINARY, leaves)
-    return {0: [], 1: [], 2: out}
+    grow(A, U_CTX, B_CTX, ())
+    grow(R, full, BINARY, WRAPPERS)
+    return {2: out}
+
+
+def _energy_sums():
+    """eadd(e1(l1), e2(l2)) for all likelihood pairs and leaf pairs, bare / scaled / inside a StandardHamiltonian"""
+    out = {3: [], 4: []}
+    for e1 in E_SUM:
+        for e2 in E_SUM:
+            for l1 in ("a", "b"):
+                for l2 in ("a", "b"):
+                    t = ["eadd", [e1, l1], [e2, l2]]
+                    out[3].append(t)
+                    out[4].append(["ham", t])
+                    out[4].append(["esmul", t])
+    return out
+
+
+_space_cache = {}
+
+
+def space(tier):
+    """[(label, cfg, {size: [trees]}, grid points)] - the union (duplicates removed) is the enumerated space."""
+    from vf.ref import c03_expr as X
+    if tier in _space_cache:
+        return _space_cache[tier]
+    full = _full_unary()
+    blocks = []
+
+    def add(label, cfg, leaves, un, bi, n, wr=(), depth=None, grid=(0, 1), grid_top=None):
+        by = X.enumerate_trees(leaves, un, bi, n, max_depth=depth, wrappers=wr)
+        blocks.append((label, cfg, by, {s: (grid_top if (grid_top and s == n) else grid) for s in by}))
+
+    if tier == "quick":
+        add("full alphabet, <=1 node", "ab", ["a", "b", "La"], full, BINARY, 1, WRAPPERS)
+        add("full alphabet, <=1 node", "x", ["x", "Lx"], full, BINARY, 1, WRAPPERS)
+        blocks.append(("full x context, 2 nodes (mod a<->b)", "ab", _mixed_size2(), {2: (0, 1)}))
+        add("reduced alphabet, <=2 nodes", "x", ["x"], U_CTX, B_CTX, 2, ["pre:exp"])
+        add("tiny alphabet, <=3 nodes", "ab", ["a", "b"], U_TINY, B_TINY, 3, grid_top=(0,))
+        blocks.append(("likelihood sums", "ab", _energy_sums(), {3: (0, 1), 4: (0,)}))
+    else:
+        add("full alphabet, <=2 nodes", "ab", ["a", "b", "La"], full, BINARY, 2, WRAPPERS)
+        add("full alphabet, <=2 nodes", "x", ["x", "Lx"], full, BINARY, 2, WRAPPERS)
+        add("reduced alphabet, <=3 nodes", "ab", ["a", "b"], U_RED, B_RED, 3, ["pre:exp"], grid_top=(0,))
+        add("tiny alphabet, <=4 nodes, depth<=3", "ab", ["a", "b"], U_TINY_T, B_TINY_T, 4, depth=3, grid_top=(0,))
+        blocks.append(("likelihood sums", "ab", _energy_sums(), {3: (0, 1), 4: (0, 1)}))
+    _space_cache[tier] = blocks
+    return blocks
 
 
 def cases(tier, seed):
     from vf.ref import c03_expr as X
     seen, out = set(), []
-    blocks = space(tier)
-    for label, cfg, by in blocks:
+    for label, cfg, by, grid in space(tier):
         for size in sorted(by):
             trees = list(by[size])
             if cfg == "x":
@@ -152,15 +181,12 @@ def cases(tier, seed):
                 if (cfg, k) in seen:
                     continue
                 seen.add((cfg, k))
+                key = (X.tree_size(t), X.tree_depth(t), cfg != "x")
                 for dt in ("r", "c"):
-                    gs = (0, 1) if tier == "quick" else (0, 1, 2)
-                    if size >= 3:
-                        gs = gs[:-1]
-                    for g in gs:
-                        out.append(dict(cfg=cfg, tree=t, dt=dt, g=g, seed=int(seed)))
-    out.sort(key=lambda c: (X.tree_size(c["tree"]), X.tree_depth(c["tree"]), c["cfg"] != "x", c["dt"] != "r", c["g"],
-                            json.dumps(c["tree"])))
-    return out
+                    for g in grid[size]:
+                        out.append((key + (dt != "r", g, k), dict(cfg=cfg, tree=t, dt=dt, g=g, seed=int(seed))))
+    out.sort(key=lambda c: c[0])
+    return [c for _, c in out]
 
 
 # ---------------------------------------------------------------- one case
@@ -355,11 +381,14 @@ def _category(op):
 
 
 def run(case):
+    import time
     from vf.ref import c03_expr as X
+    t0 = time.process_time()
     r = evaluate(case)
     if r[0] == "skip":
-        return skip(r[1])
+        return skip(r[1], stats=dict(cpu_s=time.process_time() - t0))
     _, fails, stats, info = r
+    stats["cpu_s"] = time.process_time() - t0
     t = case["tree"]
     dts = "complex" if case["dt"] == "c" else "real"
     if fails:
@@ -398,8 +427,11 @@ def finish(run):
                 run.violations.append((dict(coverage="ptw:" + f, dt=dts),
                                        bad("point-wise function %s never verified for %s input" % (f, dts),
                                            finding_key="coverage|never-verified|%s|ptw:%s" % (dts, f))))
-    blocks = space(run.tier)
-    return dict(space=[dict(block=l, cfg=c, trees_by_size={str(s): len(v) for s, v in by.items()}) for l, c, by in blocks],
+    return dict(space=[dict(block=l, cfg=c, trees_by_size={str(s): len(v) for s, v in by.items()},
+                            grid_points_by_size={str(s): list(g) for s, g in gr.items()})
+                       for l, c, by, gr in space(run.tier)],
                 ops_verified={o: per[o] for o in sorted(per)},
-                alphabet_sizes=dict(unary_full=len(_full_unary()), binary=len(BINARY), unary_reduced=len(U_RED),
-                                    binary_reduced=len(B_RED), unary_tiny=len(U_TINY), binary_tiny=len(B_TINY)))
+                alphabets=dict(unary_full=_full_unary(), binary_full=BINARY, wrappers=WRAPPERS + ["dtape:a"],
+                               unary_reduced=U_RED, binary_reduced=B_RED, unary_context=U_CTX, binary_context=B_CTX,
+                               tiny=(U_TINY + B_TINY) if run.tier == "quick" else (U_TINY_T + B_TINY_T),
+                               likelihood_sums=E_SUM))
